@@ -565,6 +565,29 @@ def install_close(e):
             c.ghost["auto_close"] = SV("int", z(c.ghost["auto_close"]) + 1)
     e.after_call[("WebSocket.close", "send")] = after_send_in_close
 
+    def clock_read_in_close(c, fr, r):
+        # ghost: clock readings of close(): the first one is the start of the wait, the latest one of this loop iteration is
+        # the reading the deadline test was made on
+        c.ghost.setdefault("$close_first_read", r)
+        c.ghost["$close_iter_read"] = r
+    e.after_call[("WebSocket.close", "time")] = clock_read_in_close
+
+    def wait_only_before_deadline(c, fr, args):
+        """ghost assertion where close() starts to wait for another frame: a clock reading taken in this iteration is still inside
+        the caller's timeout, counted from the first reading (or no timeout was given).  Together with the socket timeout set
+        before the loop (entry check) this is the safety rendering of "close() returns within its timeout": no new wait is
+        started once the deadline has passed."""
+        t = fr.locals.get("timeout")
+        if t is None or unopt(t) is None:
+            return
+        first, cur = c.ghost.get("$close_first_read"), c.ghost.get("$close_iter_read")
+        if first is None or cur is None:
+            goal = zn(t)
+        else:
+            goal = z3.Or(zn(t), z(cur, "real") - z(first, "real") < z(unopt(t), "real"))
+        c.prove("close.wait-only-before-deadline", goal, c.last_call_node)
+    e.before_call[("WebSocket.close", "recv_frame")] = wait_only_before_deadline
+
     GH = ["rpos", "rx_calls", "fstart", "lastf", "clock"]
 
     def close_loop_inv(c, fr, entry):
@@ -572,6 +595,7 @@ def install_close(e):
         return z3.And(FB(c, c.getf(ws, "frame_buffer")), z3.Not(z(c.getf(ws, "connected"), "bool")))
 
     def close_loop_havoc(c, fr, entry):
+        c.ghost.pop("$close_iter_read", None)  # an arbitrary iteration starts without a clock reading of its own
         ws = fr.locals["self"]
         fb = c.getf(ws, "frame_buffer")
         sh = fb_shape(False)[2]
